@@ -119,6 +119,7 @@ Qed.
    and the de-duplicated puts *)
 Theorem deferred_car_file c ops s :
   dc_faults c = [] ->   (* a healthy output target: write faults are C16/C20 *)
+  dc_kids c = [] ->     (* ordinary OnPut callbacks (no re-entrant registration: C20) *)
   d_inner (d_run c d_init ops) = Some s -> existsb is_close ops = true ->
   let o := eff_opts c in
   let ro := roots_opt (dc_nilroots c) (dc_roots c) in
@@ -126,8 +127,8 @@ Theorem deferred_car_file c ops s :
   car_file (writer_ct o) ro (spec_stored (dc_kind c) o ro [d_puts ops]) 0
   = Some (d_bytes c (d_run c d_init ops)).
 Proof.
-  intros Hnf Hin Hcl o ro Hfit.
-  destruct (output_is_direct c ops s Hin) as (s0 & H0 & Hb). rewrite Hcl in Hb.
+  intros Hnf Hnk Hin Hcl o ro Hfit.
+  destruct (output_is_direct c ops s Hnk Hin) as (s0 & H0 & Hb). rewrite Hcl in Hb.
   destruct (session_car_file (dc_kind c) o (dc_nilroots c) (dc_roots c) [d_puts ops] Hfit) as (s' & outs & Hs & Hf).
   unfold direct_open in H0. rewrite Hnf in H0.
   assert (Hd : exists outs', session (dc_kind c) o (dc_nilroots c) (dc_roots c) [d_puts ops]
